@@ -87,6 +87,10 @@ static void chain_ref(Bytes &d, int T, bool enc) { // sequential reference of th
 }
 static Bytes pad(const Bytes &p) { Bytes d = p; int n = 16 - (int)(d.size() % 16); d.insert(d.end(), n, (u8_t)n); return d; }
 
+static int g_ofd = -1;
+static int STATEFUL = 0;
+static uint64_t g_out_hash = 0;
+static void refresh_out_hash() { uint64_t h = 99; if (g_ofd >= 0) { Bytes o = slurp_fd(g_ofd); h = h * 1099511628211ULL + o.size(); for (auto b : o) h = (h ^ b) * 1099511628211ULL; } g_out_hash = h; }
 // ---- hook sink: events, happens-before accesses, scheduling points ---------------------------------------
 extern "C" void wencry_verif_point(int kind, long index, long aux) {
   if (!vs_active()) return;
@@ -105,7 +109,7 @@ extern "C" void wencry_verif_point(int kind, long index, long aux) {
     case WV_BUF_EXPORT_STEP: fp[n++] = {OBJ(bi, OBJ_CUR), 0}; fp[n++] = {OBJ(bi, OBJ_BYT), 0}; break;
     default: fp[n++] = {OBJ(bi, OBJ_CUR), 1}; fp[n++] = {OBJ(bi, OBJ_BYT), 1}; break; // export/load begin/end bracket accesses to both
     }
-    vs_point_fp(kind, bi, fp, n);
+    vs_point_fp(kind * 16 + (int)(aux & 15), bi, fp, n);
   }
   switch (kind) {
   case WV_W_GET: {
@@ -118,7 +122,7 @@ extern "C" void wencry_verif_point(int kind, long index, long aux) {
   case WV_W_STATE: case WV_IO_STATE: break;
   case WV_IO_EXPORT_BEGIN: g_io_busy[bi] = 1; break;
   case WV_BUF_EXPORT_STEP: vs_access(2 * bi, 0, 20); vs_access(2 * bi + 1, 0, 21); break;
-  case WV_IO_EXPORT_END: vs_access(2 * bi, 0, 22); g_io_busy[bi] = 0; break;
+  case WV_IO_EXPORT_END: vs_access(2 * bi, 0, 22); g_io_busy[bi] = 0; if (STATEFUL) refresh_out_hash(); break;
   case WV_IO_LOAD_BEGIN: g_io_busy[bi] = 1; vs_access(2 * bi, 1, 30); vs_access(2 * bi + 1, 1, 31); break;
   case WV_BUF_LOAD_STEP:
     if (aux == 0) vs_access(2 * bi + 1, 1, 32); else vs_access(2 * bi, 1, 33 + (int)aux);
@@ -160,8 +164,6 @@ void __cyg_profile_func_exit(void *, void *) __attribute__((no_instrument_functi
 void __cyg_profile_func_enter(void *, void *) { if (STREAMPOINTS && vs_active() && vs_self() > 0) { vs_fp_t fp = {2000, 1}; vs_point_fp(300, -1, &fp, 1); } }
 void __cyg_profile_func_exit(void *, void *) { if (STREAMPOINTS && vs_active() && vs_self() > 0) { vs_fp_t fp = {2000, 1}; vs_point_fp(301, -1, &fp, 1); } }
 }
-static int g_ofd = -1;
-static int STATEFUL = 0;
 static std::vector<Aesmode *> *g_streams = nullptr;
 static FILE *g_fin = nullptr;
 static uint64_t obs_hash() {
@@ -169,14 +171,28 @@ static uint64_t obs_hash() {
   auto mix = [&](uint64_t v) { h ^= v; h *= 1099511628211ULL; };
   if (!g_bg || !g_bg->ctrl) return h;
   if (STATEFUL) { // everything that can influence the future or a monitor's verdict (state-matching search prunes on this hash)
-    for (u32_t i = 0; i < g_bg->size; i++) { const u8_t *p = (const u8_t *)g_bg->buflst[i].b; for (u32_t k = 0; k < S; k++) mix(p[k]); }
+    for (u32_t i = 0; i < g_bg->size; i++) { // only the loaded part of a chunk: the rest of a fresh buffer is uninitialised heap memory
+      const iobuffer &bf = g_bg->buflst[i];
+      const u8_t *p = (const u8_t *)bf.b;
+      u32_t n = std::min<u32_t>(S, bf.total << 4); // whole blocks only: after padding, `tail` still counts bytes of the (now complete) last block
+      for (u32_t k = 0; k < n; k++) mix(p[k]);
+    }
     if (g_streams) for (auto m : *g_streams) { const u8_t *p = SCEN == "pipe" ? (ENC ? ((ChainEnc *)m)->st : ((ChainDec *)m)->st) : nullptr; if (p) for (int k = 0; k < 16; k++) mix(p[k]); }
-    if (g_ofd >= 0) { Bytes o = slurp_fd(g_ofd); mix(o.size()); for (auto b : o) mix(b); } // output stream is unbuffered in this mode
+    mix(g_out_hash); // output written so far (stream is unbuffered in this mode; refreshed after every export)
     if (g_fin) mix((uint64_t)ftell(g_fin));
     mix(g_nchunks);
     for (int i = 0; i < multicry_master::THREAD_MAX; i++) { mix(g_chunk_of_buf[i] + 1); mix(g_io_busy[i]); mix(g_log[i].size()); for (auto &l : g_log[i]) { mix(l.tid); mix(l.buf + 1); mix(l.gblock + 1); } }
     mix(g_overlap.size());
     mix(vs_nraces);
+    if (getenv("VS_OBSDBG")) {
+      uint64_t hb = 0, ho = 0; for (u32_t i = 0; i < g_bg->size; i++) { const iobuffer &bf = g_bg->buflst[i]; hb = hb * 31 + bf.total * 7 + bf.tail * 3 + bf.now + bf.isfinal * 1000; const u8_t *p = (const u8_t *)bf.b; u32_t n = std::min<u32_t>(S, (bf.total << 4) + bf.tail); for (u32_t k = 0; k < n; k++) hb = hb * 131 + p[k]; }
+      Bytes o = slurp_fd(g_ofd); for (auto b : o) ho = ho * 131 + b;
+      fprintf(stderr, "OBS t%d bufs=%lx out=%zu/%lx fin=%ld nch=%d races=%d ovl=%zu logs=", vs_self(), hb, o.size(), ho, g_fin ? ftell(g_fin) : -1, g_nchunks, vs_nraces, g_overlap.size());
+      for (int i = 0; i < Tn; i++) fprintf(stderr, "%zu,", g_log[i].size());
+      fprintf(stderr, " st=");
+      for (u32_t i = 0; i < g_bg->size; i++) fprintf(stderr, "%d", (int)g_bg->ctrl[i].state);
+      fprintf(stderr, " turn=%u over=%d live=%d\n", g_bg->turn, g_bg->over, (int)bufferctrl::live_num);
+    }
   }
   for (u32_t i = 0; i < g_bg->size; i++) {
     mix(g_bg->ctrl[i].state);
@@ -212,6 +228,7 @@ static void scenario_pipe(std::string &obs) {
   for (int i = 0; i < Tn; i++) m.push_back(ENC ? (Aesmode *)new ChainEnc(IV0, i) : (Aesmode *)new ChainDec(IV0, i));
   g_streams = &m;
   g_fin = fi;
+  g_out_hash = 0;
   if (STATEFUL) setvbuf(fo, NULL, _IONBF, 0);
   buffergroup::get_instance()->set_buffergroup(Tn, fi, fo, ENC);
   vs_group_of = group_of;
@@ -348,6 +365,10 @@ int main(int argc, char **argv) {
   }
   std::string cfgname = SCEN + ":T=" + std::to_string(Tn) + ",len=" + std::to_string(len) + ",enc=" + std::to_string(ENC) + ",S=" + std::to_string(S) + (RAWDEC ? ",rawbody" : "") + (STREAMPOINTS ? ",stream-code-points" : "") + (SCEN == "e2e" ? ",cmode=" + std::to_string(CMODE) : "") + (COARSE == 1 ? ",medium" : COARSE == 2 ? ",coarse" : "") + (cfg.stateful ? std::string(",state-matching") : cfg.sleep ? ",sleepsets" : (cfg.delay ? ",delaybound=" : ",bound=") + std::to_string(cfg.bound)) + (cfg.spurious ? ",spurious=" + std::to_string(cfg.spurious) : "");
 
+  if (a.has("dumpparts")) { // debugging aid for the state abstraction: run the default schedule twice and print the per-point hash components
+    for (int k = 0; k < 2; k++) { vx::Exec x = vx::run_one(a.list("prefix"), cfg, sc); for (size_t i = 0; i < x.pts.size(); i++) printf("run%d pt%zu t%d ops=%016lx pc=%016lx mu=%016lx obs=%016lx\n", k, i, x.pts[i].chosen_tid, x.parts[4 * i], x.parts[4 * i + 1], x.parts[4 * i + 2], x.parts[4 * i + 3]); }
+    return 0;
+  }
   if (a.has("replay")) { // run one schedule twice, print observations, exit 0 iff identical
     std::vector<int> pre = a.list("replay");
     cfg.sleep = a.num("sleep", 0) != 0;
